@@ -150,6 +150,30 @@ func (g G) MinLens() (map[string]int, map[string]int) {
 			}
 		}
 	}
+	// the minimal lengths are unique, the alternative reaching them need not be:
+	// take the lowest-numbered one, whatever order the map was walked in
+	for r, alts := range g {
+		if ml[r] >= inf {
+			continue
+		}
+		for ai, alt := range alts {
+			n := 0
+			for _, e := range alt {
+				if e.Sym == "" {
+					n++
+				} else if l := ml[e.Sym]; l >= inf {
+					n = inf
+					break
+				} else {
+					n += l
+				}
+			}
+			if n == ml[r] {
+				ma[r] = ai
+				break
+			}
+		}
+	}
 	for r, l := range ml {
 		if l >= inf {
 			ml[r] = -1
